@@ -12,13 +12,16 @@ RULE = ("family `worker`: a real VhostUserDaemon (RecordingBackend; VringMutex a
         "verif_hooks::set_controller. A scenario line is a word over {K = guest kick, W = the worker runs to its next hold "
         "point, C = the control thread runs to its next hold point / replies}; enumerated: ALL interleavings of the chain "
         "K·W^n with the control chain of scenario disable (SET_VRING_ENABLE 0: state, epoll, reply; n=5: 84 words), reset "
-        "(RESET_DEVICE on 2 rings: state, epoll, state1, epoll1, reply; n=5: 462 words) and stop/restart (GET_VRING_BASE: state, "
-        "epoll, drop, reply; then SET_VRING_KICK with a fresh fd: state, ready, epoll, reply; n=4: 1287 words), each on "
-        "both ring types, in both tiers. What every token did is observed (hold point reached, reply readable, readability "
-        "of each kick eventfd), then everything runs free, the ring is activated again, one more kick is raised and the "
-        "handler calls are counted after barriers. The Spec driver turns the trace into the history of "
+        "(RESET_DEVICE on 2 rings: state, epoll, state1, epoll1, reply; n=5: 462 words), stop/restart (GET_VRING_BASE: state, "
+        "epoll, drop, reply; then SET_VRING_KICK with a fresh fd: state, ready, epoll, reply; n=4: 1287 words) and stopnf "
+        "(GET_VRING_BASE: state, epoll, drop, reply; then SET_VRING_KICK with the no-descriptor flag and no fd: state, "
+        "epoll, reply -- it must not mark the ring ready; n=4: 792 words; the restart with a fresh fd is part of the "
+        "epilogue), each on both ring types, in both tiers. What every token did is observed (hold point reached, reply "
+        "readable, readability of each kick eventfd), then everything runs free, the ring is activated again, one more kick "
+        "is raised and the handler calls are counted after barriers. The Spec driver turns the trace into the history of "
         "Spec.KickDelivery and judges P1 (no handler entry between the reply of a disabling/stopping message and the begin "
-        "of the enabling/restarting one) and P2 (no wake-up consumed without a handler call, worker alive, every kick on "
+        "of the enabling/restarting one; a descriptor-less SET_VRING_KICK is not a restarting message, so in stopnf the "
+        "period opened by the GET_VRING_BASE reply stays open for the rest of the schedule) and P2 (no wake-up consumed without a handler call, worker alive, every kick on "
         "the active ring delivered at the end); the model driver (Model.Worker LTS, repaired configuration) must predict "
         "trace and counts. A failing run is identified by scenario + effective hold-point order up to the violation; keys "
         "listed in known_findings.txt are reported as KNOWN-FINDING. distinct = distinct scenario lines; non-trivial = "
@@ -46,7 +49,8 @@ def words(chain_a, n_c):
     return out
 
 
-SCEN = {"disable": (3, 5), "reset": (5, 5), "stop": (8, 4)}
+# scenario -> (segments of the control chain on the unmodified tree, n of K·W^n)
+SCEN = {"disable": (3, 5), "reset": (5, 5), "stop": (8, 4), "stopnf": (7, 4)}
 
 
 class WorkerFamily(Family):
